@@ -148,6 +148,22 @@ type varier struct {
 	r *hx.Rand
 	// level 0: single spaces only; 1: RE2 white space between tokens; 2: also padding, comments, \r\n
 	level int
+	// again: set by line() when it repeated the first option's key with the value "again" (later key wins)
+	again *string
+}
+
+// effective returns the definition the last line() call wrote: d with the options as a reader must see them.
+func (v *varier) effective(d *rt.Def) rt.Def {
+	e := *d
+	e.Opts = nil
+	for _, o := range d.Opts {
+		o2 := []string{o[0], o[1]}
+		if v.again != nil && o[0] == *v.again {
+			o2[1] = "again"
+		}
+		e.Opts = append(e.Opts, o2)
+	}
+	return e
 }
 
 func (v *varier) sep() string {
@@ -161,6 +177,7 @@ func (v *varier) sep() string {
 // quoted lists, and (when mal is set) one malformation.
 func (v *varier) line(d *rt.Def, mal bool) string {
 	r := v.r
+	v.again = nil
 	var toks []string
 	add := func(s ...string) { toks = append(toks, s...) }
 	tags := func() string {
@@ -190,7 +207,9 @@ func (v *varier) line(d *rt.Def, mal bool) string {
 		if v.level > 0 {
 			sep = r.Pick([]string{" ", "  ", "\t", "  ", "\v"})
 			if r.Chance(1, 8) && len(kv) > 0 {
-				kv = append(kv, strings.SplitN(kv[0], "=", 2)[0]+"=again") // later key wins
+				k := strings.SplitN(kv[0], "=", 2)[0]
+				kv = append(kv, k+"=again") // later key wins
+				v.again = &k
 			}
 		}
 		s := strings.Join(kv, sep)
@@ -399,7 +418,11 @@ var c05Small = func() rt.Universe {
 	u.Opts = append(append([][]string{}, rt.Small.Opts...),
 		[]string{"register", "alias-a"}, []string{"register", ""}, []string{"redirect", "399"}, []string{"redirect", "200"},
 		[]string{"redirect", "+302"}, []string{"redirect", "3x1"}, []string{"host", "www.foo.com"}, []string{"pxyproto", "true"},
-		[]string{"tlsskipverify", "TRUE"}, []string{"strip", ""})
+		[]string{"tlsskipverify", "TRUE"}, []string{"strip", ""},
+		// values that contain '=' themselves (only the first '=' of a field separates key and value), a value that
+		// is just "=", an empty key
+		[]string{"strip", "/cfg/env=prod"}, []string{"prepend", "/q=1"}, []string{"host", "a=b"}, []string{"k", "v=w=x"},
+		[]string{"eq", "="}, []string{"", "v"})
 	return u
 }()
 
